@@ -153,6 +153,17 @@ def apply_step(ctx, d, keys, data: bytes, step, n: int):
     return out.read_bytes() if out.exists() else data
 
 
+def refusable(ctx, make):
+    """C03 quantifies over the image of create: a generated description the tool refuses yields no envelope to round-trip; the
+    scenario is skipped and counted (systemic refusals fail the run as machinery), it is never a crash of the check."""
+    try:
+        return make()
+    except Exception as e:
+        ctx.count("refused_by_create")
+        ctx.observe(f"create refused a generated description: {type(e).__name__}: {str(e)[:100]}")
+        return None
+
+
 def base_envelope(ctx, d, k):
     """An envelope with severed install + text, a payload #p0 and a dependency #dep (as Tool_MC's E0)."""
     child = envgen.random_shape(ctx.rng, maxdepth=0, small=True)
@@ -183,7 +194,9 @@ def run(ctx: core.Check):
     n = 0
     ctx.note(f"Use B/C: {len(seqs)} TLC command sequences on real envelopes, round trip at every artifact")
     for k, seq in enumerate(seqs):
-        data = base_envelope(ctx, d, k)
+        data = refusable(ctx, lambda: base_envelope(ctx, d, k))
+        if data is None:
+            continue
         tr.begin({"origin": "tlc", "seq": seq, "env": data})
         n += 1
         roundtrip_events(ctx, tr, keys, d, data, "created", n, "cli" if k % 20 == 0 else "lib")
@@ -204,7 +217,9 @@ def run(ctx: core.Check):
     for k in range(100 if ctx.quick else 3000):
         sh = envgen.random_shape(ctx.rng, maxdepth=2)
         b = envgen.Builder(d / f"r{k}")
-        data = toolrun.create_lib(b.desc(sh, toolrun.create_lib))
+        data = refusable(ctx, lambda: toolrun.create_lib(b.desc(sh, toolrun.create_lib)))
+        if data is None:
+            continue
         tr.begin({"origin": "random", "shape": sh, "env": data})
         n += 1
         roundtrip_events(ctx, tr, keys, d, data, "random", n, "cli" if k % 25 == 0 else "lib")
@@ -231,13 +246,19 @@ def run(ctx: core.Check):
         sh = {"walg": envgen.ALGS[0], "wsup": "none", "seq": 1, "pad": None, "mem": {}, "cid": None, "version": None, "pay": [],
               "deps": [], "imgs": []}
         b = envgen.Builder(d / f"pin_{pin}")
-        desc = b.desc(sh, toolrun.create_lib)
-        edit(desc)
-        data = toolrun.create_lib(desc)
+        def pinned():
+            desc = b.desc(sh, toolrun.create_lib)
+            edit(desc)
+            return toolrun.create_lib(desc)
+        data = refusable(ctx, pinned)
+        if data is None:
+            continue
         tr.begin({"origin": "pin", "pin": pin, "env": data})
         n += 3 - n % 3  # all four format/hierarchy combinations
         roundtrip_events(ctx, tr, keys, d, data, "pin", n)
     toolrun.report(ctx, tr, label="roundtrip-random", keyfn=keyfn)
+    if ctx.cov.get("refused_by_create", 0) > 0.2 * max(1, ctx.cov["evaluations"]):
+        raise core.MachineryError(f"create refused {ctx.cov['refused_by_create']} generated descriptions")
     flush_wire(ctx)
     ctx.assumptions += ["own CBOR reader; interned ids; order of text-keyed members is not compared (the property says 'set')",
                         "F4: a raw byte string that happens to decode as a CBOR int/tstr is shown as that value and re-created as "
